@@ -123,7 +123,7 @@ def run(chk):
     n_exh = len(gens)
     sim = chk.tlc("MC_Script", cfg(chk, "gensim", ts="TS5", maxlen=9, emit=True, invariants=["MachineRefinesIdeal", "EmitCase"]),
                   "generate: simulated longer histories over 5 tables", workers=1, coverage=False,
-                  simulate="num=%d" % (6 if quick else 60), depth=10, seed=chk.seed, timeout=3000)
+                  simulate="num=%d" % (400 if quick else 8000), depth=10, seed=chk.seed, timeout=3000)
     longs = [c for c in sim.cases("CASE") if len(c["h"]) >= 5]
     rnd.shuffle(longs)
     longs = longs[:1500 if quick else 30000]
